@@ -560,6 +560,50 @@ def multi_text_insert(rng, schema, doc):
     return p, nodes
 
 
+def end_of_node_slice(rng, docs):
+    """a slice cut so that its first child is an *empty* open node with siblings beside it (the cut starts at the very end
+    of a nested node's content and ends two or more levels inside a later sibling), or the mirror image at its end; None
+    if no document offers such a cut.  (`random_slice` takes this branch with a small probability; C11 wants it often.)"""
+    for _ in range(12):
+        d = rng.choice(docs)
+        al = aligned_positions(d)
+        ends, starts = [], []
+        for p in al:
+            try:
+                rp = d.resolve(p)
+            except Exception:  # noqa: BLE001
+                continue
+            if rp.depth >= 2 and not rp.parent.inline_content:
+                if p == rp.end(rp.depth):
+                    ends.append((p, rp))
+                if p == rp.start(rp.depth):
+                    starts.append((p, rp))
+        try:
+            if ends and rng.random() < 0.6:
+                # prefer an end whose node has a following sibling, and a `to` deep inside that sibling
+                sib = [(p, rp) for (p, rp) in ends if rp.index(rp.depth - 1) + 1 < rp.node(rp.depth - 1).child_count]
+                f, rf = rng.choice(sib or ends)
+                k = rf.depth
+                nxt = rf.after(k)
+                inside = []
+                if sib:
+                    size = rf.node(k - 1).child(rf.index(k - 1) + 1).node_size
+                    inside = [p for p in al if nxt < p < nxt + size and d.resolve(p).depth >= k + 1]
+                later = inside or [p for p in al if p > nxt and d.resolve(p).depth >= k] or [p for p in al if p > f]
+                if not later:
+                    continue
+                return d.slice(f, rng.choice(later), rng.random() < 0.6)     # often with the parents kept (clipboard style)
+            if starts:
+                t, rt = rng.choice(starts)
+                earlier = [p for p in al if p < rt.before(rt.depth) and d.resolve(p).depth >= rt.depth] or [p for p in al if p < t]
+                if not earlier:
+                    continue
+                return d.slice(rng.choice(earlier), t, rng.random() < 0.6)
+        except Exception:  # noqa: BLE001
+            continue
+    return None
+
+
 def frag_boundaries(fragment):
     """positions in a fragment that are not inside text (between children, at content starts / ends)"""
     out = []
